@@ -1468,18 +1468,24 @@ def leg_subprocess(ctx, P, rng, n_convert, n_commute, n_jit):
         cls = ["polar", "spherical", "cylindrical", "cartesian", "unit"][i % 5]
         spec = gen_curv_grid(rng, cls, 1, 6) if cls in OP_ORDER else gen_cart_grid(rng, unit=(cls == "unit"))
         prods.append({"leg": "products", "spec": spec, "data_seed": rng.randrange(2 ** 31), "mode": "S"})
-    comm = comm + prods
     jit = []
     for i in range(n_jit):
         src = conv if i % 2 == 0 else comm
         c = dict(src[rng.randrange(len(src))], mode="J")
         jit.append(c)
+    comm = comm + prods
     # the compiled dot/outer operators (about 30 s of compilation each): one grid in the quick tier, spread over
     # the worker processes
-    # operators of their own (one grid in the quick tier, 3 operators there), run in their own processes
-    n_pj = 0 if not n_jit else (1 if n_jit <= 8 else 4)
-    pj = [dict(prods[(i + rng.randrange(5)) % len(prods)], mode="J",
-               ops=(["vt", "tv", "outer"] if n_pj == 1 else None)) for i in range(n_pj)]
+    # the compiled dot/outer operators run in their own processes
+    n_pj = 0 if not n_jit else (2 if n_jit <= 8 else 4)
+    # (compilation time grows steeply with the number of grid axes: 30 s for 1-2 axes, minutes for 3, so the
+    # compiled runs use the curvilinear grids, which cover dim = 2 and 3, plus one 3-axes grid in thorough)
+    small = [c for c in prods if c["spec"]["cls"] in OP_ORDER]
+    by_cls = {c: [x for x in small if x["spec"]["cls"] == c] for c in OP_ORDER}
+    pick = ["polar", rng.choice(["spherical", "cylindrical"]), "cylindrical", "spherical"]   # dim 2 and dim 3
+    pj = [dict(rng.choice(by_cls[pick[i]]), mode="J") for i in range(n_pj)]
+    if n_pj > 2:
+        pj.append(dict([c for c in prods if c["spec"]["cls"] not in OP_ORDER][0], mode="J", ops=["tv", "vt"]))
     # source semantics (10 processes) and JIT (6 processes) side by side
     import os
     import threading
@@ -1517,6 +1523,10 @@ def leg_subprocess(ctx, P, rng, n_convert, n_commute, n_jit):
             raise v
     res_s, res_j = box["S"], list(box["J"]) + list(box["PJ"])
     jit = jit + pj
+    if hasattr(ctx, "extra"):
+        ctx.extra["worker_seconds"] = {
+            mode: [round(o["_seconds"], 1) for c, o in zip(conv + comm + jit, list(res_s) + list(res_j))
+                   if c["mode"] == mode and isinstance(o, dict)][:60] for mode in ("J",)}
     for case, out in zip(conv + comm + jit, list(res_s) + list(res_j)):
         if case["leg"] == "convert":
             convert_eval(ctx, P, case, out)
@@ -1577,9 +1587,14 @@ def products_eval(ctx, case, out):
 
 
 def sub_worker(case):
+    import time
+    t = time.time()
     if case["leg"] == "products":
-        return products_worker(case)
-    return convert_worker(case) if case["leg"] == "convert" else commute_worker(case)
+        out = products_worker(case)
+    else:
+        out = convert_worker(case) if case["leg"] == "convert" else commute_worker(case)
+    out["_seconds"] = time.time() - t
+    return out
 
 
 def run(ctx):
@@ -1664,6 +1679,12 @@ def replay(ctx, rep):
     case = rep["case"]
     col = Collector()
     run_case(col, NoModel(), case)
+    if rep.get("key"):
+        # the replayed failure is identified by its key (a cylindrical case also shows the known finding)
+        other = [mf for mf in col.monitor_failures if mf["key"] != rep["key"]]
+        col.monitor_failures = [mf for mf in col.monitor_failures if mf["key"] == rep["key"]]
+        if other:
+            print(f"({len(other)} monitor failures with another key, e.g. {other[0]['key']}, not counted)")
     for mf in col.monitor_failures[:5]:
         print("monitor failure:", mf["what"])
         print("  observed:", str(mf["observed"])[:400])
